@@ -3,6 +3,7 @@ package props
 import (
 	"bytes"
 	"fmt"
+	"math/rand"
 	"strings"
 	"sync"
 
@@ -62,6 +63,22 @@ func c09routing(c *runner.Ctx, i int) {
 		return
 	}
 	defer sess.Close()
+	// every key GetRoutingKey returned in this case is kept and compared again at the end: the bytes handed
+	// to the caller (policies keep them, applications group rows by them) must not change afterwards
+	type heldKey struct {
+		how, key  string
+		got, want []byte
+	}
+	var held []heldKey
+	defer func() {
+		for _, h := range held {
+			c.Add("held_keys_rechecked", 1)
+			if !bytes.Equal(h.got, h.want) {
+				c.Violation("C09:routing-key:"+h.how+":changed-after-return", fmt.Sprintf("the key %s returned was right at the time but reads %x after %d later calls, Cassandra's partition key bytes are %x (%s)", h.how, clip(h.got), len(held), clip(h.want), h.key), nil)
+				break
+			}
+		}
+	}()
 	for k := 0; k < 10; k++ {
 		nkey := 1 + r.Intn(4)
 		if r.Intn(3) == 0 {
@@ -180,6 +197,10 @@ func c09routing(c *runner.Ctx, i int) {
 					cls = "composite"
 				}
 				c.Violation("C09:routing-key:"+how+":"+cls, fmt.Sprintf("%s = %x, Cassandra's partition key bytes are %x (%s)", how, clip(got), clip(want), key), wit)
+				return
+			}
+			if len(held) < 64 {
+				held = append(held, heldKey{how, key, got, append([]byte{}, want...)})
 			}
 		}
 		var got []byte
@@ -187,6 +208,23 @@ func c09routing(c *runner.Ctx, i int) {
 		q := sess.Query(stmt, args...)
 		c.Guard("Query.GetRoutingKey", func() { got, gerr = q.GetRoutingKey() })
 		check("Query.GetRoutingKey", got, gerr)
+		// the same Query object bound to other values (Query.Bind is the documented way to reuse it): the key follows
+		if args2, want2, ok2 := c09values(r, st, types, nkey, version); ok2 {
+			q.Bind(args2...)
+			var got2 []byte
+			var gerr2 error
+			c.Guard("Query.GetRoutingKey", func() { got2, gerr2 = q.GetRoutingKey() })
+			c.Add("rebinds", 1)
+			if gerr2 != nil {
+				c.Violation("C09:routing-key:after-Bind:error", fmt.Sprintf("GetRoutingKey after Bind failed: %v (%s)", gerr2, key), wit)
+			} else if !bytes.Equal(got2, want2) {
+				what := "neither the old nor the new values' key"
+				if bytes.Equal(got2, want) {
+					what = "still the key of the values bound before"
+				}
+				c.Violation("C09:routing-key:after-Bind:stale", fmt.Sprintf("after Query.Bind with new values GetRoutingKey = %x (%s), Cassandra's partition key bytes are %x (%s)", clip(got2), what, clip(want2), key), wit)
+			}
+		}
 		// a second call (cached routing info) and the batch form
 		q2 := sess.Query(stmt, args...)
 		got, gerr = q2.GetRoutingKey()
@@ -219,4 +257,40 @@ func c09routing(c *runner.Ctx, i int) {
 			c.Sample(map[string]interface{}{"case": key, "routing_key": fmt.Sprintf("%x", clip(want))})
 		}
 	}
+}
+
+// c09values draws another set of bind values for the statement and the routing key Cassandra derives from them.
+func c09values(r *rand.Rand, st *c09stmt, types []*cqlref.Type, nkey, version int) (args []interface{}, want []byte, ok bool) {
+	total := len(types)
+	vals := make([]cqlref.Val, total)
+	args = make([]interface{}, total)
+	for pos := 0; pos < total; pos++ {
+		vals[pos] = gen.Value(r, types[pos], gen.Opts{Proto: version, MaxElems: 3, MaxBytes: 40, UniqueElems: true})
+		f := pickForm(r, types[pos], []cqlref.Val{vals[pos]}, dirMarshal, false, version)
+		if f == nil {
+			return nil, nil, false
+		}
+		gv, okb := build(f, vals[pos])
+		if !okb {
+			return nil, nil, false
+		}
+		args[pos] = gv.Interface()
+	}
+	for j := 0; j < nkey; j++ {
+		enc, err := cqlref.EncodeValue(types[st.pk[j]], vals[st.pk[j]], version)
+		if err != nil || len(enc) > 65535 {
+			return nil, nil, false
+		}
+		if _, err, pan := safeMarshal(typeInfo(types[st.pk[j]], version), args[st.pk[j]]); err != nil || pan != nil {
+			return nil, nil, false
+		}
+		if nkey == 1 {
+			want = enc
+		} else {
+			want = append(want, byte(len(enc)>>8), byte(len(enc)))
+			want = append(want, enc...)
+			want = append(want, 0)
+		}
+	}
+	return args, want, true
 }
